@@ -42,7 +42,9 @@ static cJSON *vf_stub_duplicate(const cJSON *item, cJSON_bool recurse)
 #ifndef VF_LIB
 #define VF_LIB "cJSON_Utils.c"
 #endif
+#include "vf_trap.h"
 #include VF_LIB
+#include "vf_untrap.h"
 #undef cJSON_Duplicate
 
 static unsigned sub_calls; static cJSON *sub_t[K + 1]; static const cJSON *sub_p[K + 1]; static cJSON *sub_ret[K + 1];
